@@ -522,6 +522,16 @@ class SFP(Sym):
             return True
         return SBool(z3.Not(z3.fpEQ(self.t, self._o(o))))
 
+    # IEEE arithmetic, round to nearest even (NumPy: array op weak python scalar keeps the array's width)
+    def __add__(self, o): return SFP(z3.fpAdd(RNE, self.t, self._o(o)))
+    def __radd__(self, o): return SFP(z3.fpAdd(RNE, self._o(o), self.t))
+    def __sub__(self, o): return SFP(z3.fpSub(RNE, self.t, self._o(o)))
+    def __rsub__(self, o): return SFP(z3.fpSub(RNE, self._o(o), self.t))
+    def __mul__(self, o): return SFP(z3.fpMul(RNE, self.t, self._o(o)))
+    def __rmul__(self, o): return SFP(z3.fpMul(RNE, self._o(o), self.t))
+    def __truediv__(self, o): return SFP(z3.fpDiv(RNE, self.t, self._o(o)))
+    def __neg__(self): return SFP(z3.fpNeg(self.t))
+
     def rint(self):
         return SFP(z3.fpRoundToIntegral(RNE, self.t))
 
